@@ -1,4 +1,4 @@
-SPECIFICATION Spec
+INIT ChainGenInit
+NEXT ChainGenNext
 CONSTANT Variant <- MCIntended
 CONSTANT InfoVariant <- MCShared
-INVARIANT Gen
